@@ -14,13 +14,15 @@
   e2e.g711  cfg <g711|g722> <n> frame*                            => obs
   e2e.opus  cfg <n> frame*                                        => obs
   e2e.vp8   cfg <EnablePictureID> <frames packetized before> <n> frame*   => obs
-  e2e.vp9   cfg <FlexibleMode> <InitialPictureIDFn()> <n> frame*  => obs
+  e2e.vp9   cfg <FlexibleMode> <InitialPictureIDFn()> <n> (opt(hdrdesc) frame)*  => obs
+            (hdrdesc as in Driver/Kinds/Vpx.lean: the uncompressed header the frame starts with)
   e2e.h264  cfg <DisableStapA> <IsAVC> <npre> <payload>* <n> (<bare> <nunits> (<four> <nal>)* frame)*  => obs
             (`pre` = payloads the receiver was fed before the history; the frame's payload must be
              the Annex-B rendering of its units, else the case is outside the hypotheses)
 -/
 import Driver.Common
 import Rtp.Pred.Pipeline
+import Driver.Kinds.Vpx
 namespace Rtp.Kinds.E2E
 open Rtp Rtp.Proto Rtp.Model Rtp.Model.Pipeline Rtp.Pred.Pipeline
 
@@ -65,12 +67,17 @@ def vp8 : Handler :=
     (fun (pk, _, _, fs) o => histOk pk fs o)
     (fun (pk, e, _, fs) => wfVP8 e pk fs)
 
+def rdVP9Frame : Rd VP9Frame := do
+  let d ← Rd.opt Rtp.Kinds.Vpx.rdHdrDesc
+  let f ← rdFrame
+  pure { frame := f.frame, desc := d, samples := f.samples, now := f.now }
+
 def vp9 : Handler :=
-  mkHandler (do let pk ← rdCfg; let f ← Rd.bool; let i ← Rd.u16; let fs ← Rd.list rdFrame; pure (pk, f, i, fs))
+  mkHandler (do let pk ← rdCfg; let f ← Rd.bool; let i ← Rd.u16; let fs ← Rd.list rdVP9Frame; pure (pk, f, i, fs))
     (Rd.list rdFrameObs)
-    (fun (pk, f, i, fs) => (runVP9 { flexible := f, init := i } pk {} fs).map coarse)
-    (fun (pk, _, _, fs) o => histOk pk fs o)
-    (fun (pk, f, i, fs) => wfVP9Flex { flexible := f, init := i } pk fs)
+    (fun (pk, f, i, fs) => (runVP9 { flexible := f, init := i } pk {} (fs.map VP9Frame.frameIn)).map coarse)
+    (fun (pk, _, _, fs) o => histOk pk (fs.map VP9Frame.frameIn) o)
+    (fun (pk, f, i, fs) => wfVP9 { flexible := f, init := i } pk fs)
 
 structure H264In where
   pk : Packetizer
